@@ -23,6 +23,7 @@ import (
 	"fmt"
 	"io"
 	"io/ioutil"
+	"math"
 	"mime"
 	"mime/multipart"
 	"net/http"
@@ -113,63 +114,56 @@ func (s *Modifier) ModifyResponse(res *http.Response) error {
 	contentType := mime.TypeByExtension(filepath.Ext(fpth))
 	res.Header.Set("Content-Type", contentType)
 
-	// If no range request header is present, return the file as the response body.
-	if res.Request.Header.Get("Range") == "" {
+	// The Range header is interpreted before anything is read, so that every
+	// outcome leaves a consistent response behind.
+	ranges, outcome := parseRanges(res.Request.Header.Get("Range"), info.Size())
+
+	switch outcome {
+	case rangeIgnored:
+		// No Range header, or one that is not a well-formed set of byte ranges
+		// (which is to be ignored): return the file as the response body.
 		res.ContentLength = info.Size()
 		res.Body = f
 
 		return nil
+	case rangeNotSatisfiable:
+		f.Close()
+		res.StatusCode = http.StatusRequestedRangeNotSatisfiable
+		res.Header.Set("Content-Range", fmt.Sprintf("bytes */%d", info.Size()))
+		res.ContentLength = 0
+		res.Body = http.NoBody
+
+		return nil
 	}
 
-	rh := res.Request.Header.Get("Range")
-	rh = strings.ToLower(rh)
-	sranges := strings.Split(strings.TrimLeft(rh, "bytes="), ",")
-	var ranges [][]int
-	for _, rng := range sranges {
-		if strings.HasSuffix(rng, "-") {
-			rng = fmt.Sprintf("%s%d", rng, info.Size()-1)
-		}
+	// Range request: the requested segments are read here, the file is not
+	// needed afterwards.
+	defer f.Close()
 
-		rs := strings.Split(rng, "-")
-		if len(rs) != 2 {
-			res.StatusCode = http.StatusRequestedRangeNotSatisfiable
-			return nil
+	// readRange reads the bytes start..end (inclusive) of the file. The range
+	// lies inside the file as it was sized above.
+	readRange := func(start, end int64) ([]byte, error) {
+		seg := make([]byte, end-start+1)
+		if _, err := io.ReadFull(io.NewSectionReader(f, start, end-start+1), seg); err != nil {
+			return nil, err
 		}
-		start, err := strconv.Atoi(strings.TrimSpace(rs[0]))
-		if err != nil {
-			return err
-		}
-
-		end, err := strconv.Atoi(strings.TrimSpace(rs[1]))
-		if err != nil {
-			return err
-		}
-
-		if start > end {
-			res.StatusCode = http.StatusRequestedRangeNotSatisfiable
-			return nil
-		}
-
-		ranges = append(ranges, []int{start, end})
+		return seg, nil
 	}
-
-	// Range request.
-	res.StatusCode = http.StatusPartialContent
 
 	// Single range request.
 	if len(ranges) == 1 {
-		start := ranges[0][0]
-		end := ranges[0][1]
-		length := end - start + 1
-		seg := make([]byte, length)
+		start, end := ranges[0][0], ranges[0][1]
 
-		switch n, err := f.ReadAt(seg, int64(start)); err {
-		case nil, io.EOF:
-			res.ContentLength = int64(n)
-		default:
+		seg, err := readRange(start, end)
+		if err != nil {
+			res.StatusCode = http.StatusInternalServerError
+			res.ContentLength = 0
+			res.Body = http.NoBody
 			return err
 		}
 
+		res.StatusCode = http.StatusPartialContent
+		res.ContentLength = int64(len(seg))
 		res.Body = ioutil.NopCloser(bytes.NewReader(seg))
 		res.Header.Set("Content-Range", fmt.Sprintf("bytes %d-%d/%d", start, end, info.Size()))
 
@@ -186,32 +180,140 @@ func (s *Modifier) ModifyResponse(res *http.Response) error {
 		mimeh.Set("Content-Type", contentType)
 		mimeh.Set("Content-Range", fmt.Sprintf("bytes %d-%d/%d", start, end, info.Size()))
 
-		length := end - start + 1
-		seg := make([]byte, length)
-
-		switch n, err := f.ReadAt(seg, int64(start)); err {
-		case nil, io.EOF:
-			res.ContentLength = int64(n)
-		default:
-			return err
+		seg, err := readRange(start, end)
+		if err == nil {
+			var pw io.Writer
+			if pw, err = mpw.CreatePart(mimeh); err == nil {
+				_, err = pw.Write(seg)
+			}
 		}
-
-		pw, err := mpw.CreatePart(mimeh)
 		if err != nil {
-			return err
-		}
-
-		if _, err := pw.Write(seg); err != nil {
+			res.StatusCode = http.StatusInternalServerError
+			res.ContentLength = 0
+			res.Body = http.NoBody
 			return err
 		}
 	}
 	mpw.Close()
 
+	res.StatusCode = http.StatusPartialContent
 	res.ContentLength = int64(len(mpbody.Bytes()))
 	res.Body = ioutil.NopCloser(bytes.NewReader(mpbody.Bytes()))
 	res.Header.Set("Content-Type", fmt.Sprintf("multipart/byteranges; boundary=%s", mpw.Boundary()))
 
 	return nil
+}
+
+// Outcomes of parseRanges.
+const (
+	// rangeIgnored: there is no Range header or it is not a well-formed set of
+	// byte ranges; the full file is to be served.
+	rangeIgnored = iota
+	// rangeNotSatisfiable: the header is well-formed but no range overlaps the
+	// file (or a first position is greater than its last position).
+	rangeNotSatisfiable
+	// rangePartial: at least one range can be served.
+	rangePartial
+)
+
+// parseRanges interprets a Range header value for a file of size bytes. For
+// rangePartial it returns the satisfiable ranges, in request order, as
+// inclusive [first, last] positions that all lie inside the file: a last
+// position beyond the end (or an absent one) is clamped to size-1, a suffix
+// range "-n" selects the last n bytes, and ranges that start at or after the
+// end are dropped.
+func parseRanges(header string, size int64) ([][2]int64, int) {
+	const unit = "bytes="
+	header = strings.TrimSpace(header)
+	if len(header) < len(unit) || !strings.EqualFold(header[:len(unit)], unit) {
+		return nil, rangeIgnored
+	}
+
+	var ranges [][2]int64
+	specs := 0
+	for _, spec := range strings.Split(header[len(unit):], ",") {
+		spec = strings.TrimSpace(spec)
+		if spec == "" {
+			continue
+		}
+		specs++
+
+		i := strings.Index(spec, "-")
+		if i < 0 {
+			return nil, rangeIgnored
+		}
+		first, last := strings.TrimSpace(spec[:i]), strings.TrimSpace(spec[i+1:])
+
+		if first == "" {
+			// Suffix range: the last n bytes of the file.
+			n, ok := parsePosition(last)
+			if !ok {
+				return nil, rangeIgnored
+			}
+			if n > size {
+				n = size
+			}
+			if n > 0 {
+				ranges = append(ranges, [2]int64{size - n, size - 1})
+			}
+			continue
+		}
+
+		start, ok := parsePosition(first)
+		if !ok {
+			return nil, rangeIgnored
+		}
+		end := size - 1
+		if last != "" {
+			if end, ok = parsePosition(last); !ok {
+				return nil, rangeIgnored
+			}
+			if start > end {
+				return nil, rangeNotSatisfiable
+			}
+			if end > size-1 {
+				end = size - 1
+			}
+		}
+		if start >= size {
+			// Starts beyond the end of the file: cannot be satisfied.
+			continue
+		}
+		ranges = append(ranges, [2]int64{start, end})
+	}
+
+	switch {
+	case specs == 0:
+		return nil, rangeIgnored
+	case len(ranges) == 0:
+		return nil, rangeNotSatisfiable
+	}
+	return ranges, rangePartial
+}
+
+// parsePosition parses a non-negative decimal byte position. Values too large
+// for an int64 are valid positions far beyond any file and saturate.
+func parsePosition(s string) (int64, bool) {
+	if s == "" {
+		return 0, false
+	}
+	for i := 0; i < len(s); i++ {
+		if s[i] < '0' || s[i] > '9' {
+			return 0, false
+		}
+	}
+
+	n, err := strconv.ParseUint(s, 10, 64)
+	if err != nil {
+		if ne, ok := err.(*strconv.NumError); ok && ne.Err == strconv.ErrRange {
+			return math.MaxInt64, true
+		}
+		return 0, false
+	}
+	if n > math.MaxInt64 {
+		return math.MaxInt64, true
+	}
+	return int64(n), true
 }
 
 // SetExplicitPathMappings sets an optional mapping of request paths to local
